@@ -283,7 +283,7 @@ type inliner struct {
 	addImp  map[string]string
 	failed  string
 	drop    map[ast.Stmt]bool // statements replaced entirely by the inlined text
-	unified map[int]bool // offsets (typed tree) of `v := e` statements whose v became the destination of the result
+	unified map[int]bool      // offsets (typed tree) of `v := e` statements whose v became the destination of the result
 }
 
 func inlineInFile(r *Repo, fname string, src []byte, sites []inlSite, overlay map[string][]byte, round int) ([]byte, int, []string, error) {
